@@ -2,10 +2,13 @@
    Statements only; the proofs are in Proofs/JsonParseProofs.v (reader side),
    Proofs/JsonTreeProofs.v (decoder side) and Proofs/JsonProofs.v (assembly).
    fmt = strconv.FormatFloat behind SexpFloat.SexpString, pf = the decoder's float parser,
-   mp_enc/mp_dec = the msgpack codec on Go trees: oracles, quantified. *)
+   mp_enc/mp_dec = the msgpack codec on Go trees: oracles, quantified (msgpack_roundtrip only;
+   msgpack_roundtrip_bytes, section 5c, goes through the bytes and has no codec oracle:
+   Proofs/MsgpackProofs.v and Proofs/MsgpackRound.v). *)
 From Coq Require Import ZArith List Bool.
 Import ListNotations.
-From ZV Require Import Model.Json Model.Msgpack Proofs.JsonTreeProofs Proofs.JsonParseProofs Proofs.JsonProofs Proofs.MsgpackProofs.
+From ZV Require Import Model.Json Model.Msgpack Proofs.JsonTreeProofs Proofs.JsonParseProofs Proofs.JsonProofs Proofs.MsgpackProofs
+                       Proofs.MsgpackRound.
 Open Scope Z_scope.
 
 (* ---- 1. the string lemma: every Go string (any code points, any bytes that are not UTF-8,
@@ -193,6 +196,62 @@ Theorem go_map_sorted : forall (T : Type) (ms : list (list Z * T)),
 Proof. exact MsgpackProofs.go_map_sorted. Qed.
 Print Assumptions go_map_sorted.
 
+(* ---- 5c. the msgpack round trip THROUGH THE BYTES, no codec oracle: SexpToJson, the RFC reader,
+        JsonToGo, GoToMsgpack, the independent msgpack reader, GoToSexp.
+        mp_fits (Proofs/MsgpackRound.v) is the domain of the msgpack FORMAT, not a gap of the proof:
+        a float is a 64-bit pattern (true of every Go float64; the model's bits are an unbounded Z),
+        the byte length of every string, the length of every array and the member count of every
+        hash (fields + Atype + zKeyOrder) are below 2^32 (above, writeContainerLen truncates the count
+        to uint32 and the bytes denote something else). It cannot simply be dropped: data bounds
+        neither, and mp_bytes writes only the low 64 bits of a float pattern (be 8) and the low 32 bits
+        of a count (this necessity is argued here, not stated as a theorem). The JSON route as the code is factored (unjson_go_json) needs no such premise. ---- *)
+
+(* str_ltb is a strict total order, so the Go map is sorted with distinct names whatever the
+   order and the repetitions of the members it is filled from *)
+Theorem go_map_is_sorted : forall (T : Type) (l : list (list Z * T)), ssorted (map fst (go_map l)) = true.
+Proof. exact (fun T => @MsgpackRound.ssorted_go_map T). Qed.
+Print Assumptions go_map_is_sorted.
+
+(* the Go tree of a data value: JsonToGo delivers it, it is in the writer's domain, GoToSexp
+   inverts it (the analogue of of_tree_tree_of on Go trees) *)
+Theorem gtree_of_data : forall fmt pf,
+  (forall sci b, float_finite b = true -> is_json_number (float_token fmt sci b) = true ->
+                 pf (float_token fmt sci b) = b) ->
+  (forall b, float_finite b = true -> has_dot_e (fmt true b) = true) ->
+  forall v, data fmt v = true -> no_reserved_keys v = true -> mp_fits v = true ->
+  exists g, gtree_of fmt pf v = Some g /\ gt_ok g = true /\ sexp_of_go g = Ok (norm v).
+Proof. exact MsgpackRound.gtree_of_data. Qed.
+Print Assumptions gtree_of_data.
+
+Theorem unjson_go_json : forall fmt pf,
+  (forall sci b, float_finite b = true -> is_json_number (float_token fmt sci b) = true ->
+                 pf (float_token fmt sci b) = b) ->
+  (forall b, float_finite b = true -> has_dot_e (fmt true b) = true) ->
+  forall v, data fmt v = true -> no_reserved_keys v = true ->
+  unjson_go pf (to_json fmt v) = Ok (norm v).
+Proof. exact MsgpackRound.unjson_go_json. Qed.
+Print Assumptions unjson_go_json.
+
+(* (unmsgpack (msgpack v)) = v through the real byte format *)
+Theorem msgpack_roundtrip_bytes : forall fmt pf,
+  (forall sci b, float_finite b = true -> is_json_number (float_token fmt sci b) = true ->
+                 pf (float_token fmt sci b) = b) ->
+  (forall b, float_finite b = true -> has_dot_e (fmt true b) = true) ->
+  forall v, data fmt v = true -> no_reserved_keys v = true -> mp_fits v = true ->
+  exists b, msgpack_bytes fmt pf v = Some b /\ unmsgpack_bytes b = Ok (norm v).
+Proof. exact MsgpackRound.msgpack_roundtrip_bytes. Qed.
+Print Assumptions msgpack_roundtrip_bytes.
+
+Theorem history_msgpack_roundtrip_bytes : forall fmt pf,
+  (forall sci b, float_finite b = true -> is_json_number (float_token fmt sci b) = true ->
+                 pf (float_token fmt sci b) = b) ->
+  (forall b, float_finite b = true -> has_dot_e (fmt true b) = true) ->
+  forall vs, Forall (fun v => data fmt v = true /\ no_reserved_keys v = true /\ mp_fits v = true) vs ->
+  map (fun v => match msgpack_bytes fmt pf v with Some b => unmsgpack_bytes b | None => Crash end) vs
+  = map (fun v => Ok (norm v)) vs.
+Proof. exact MsgpackRound.history_msgpack_roundtrip_bytes. Qed.
+Print Assumptions history_msgpack_roundtrip_bytes.
+
 (* ---- 6. non-vacuity: concrete evaluations ---- *)
 Definition fmt0 (sci : bool) (bits : Z) : list Z :=
   if bits =? 4609434218613702656 then (if sci then [49;46;53;101;43;48;48] else [49;46;53]) else [48].
@@ -293,3 +352,19 @@ Proof. vm_compute. auto 10. Qed.
 Example ex_msgpack_foreign :
   mp_decode [130; 161;98; 204;200; 161;97; 207;0;0;0;0;0;0;1;0] = Some (GMap [([97], GInt 256); ([98], GInt 200)]).
 Proof. vm_compute. reflexivity. Qed.
+
+(* the premises of msgpack_roundtrip_bytes hold of a nested value (a record holding a string, an
+   array and, under a STRING key, a hash holding an empty hash and an array of hashes) and the route
+   through the bytes gives it back, the string key as a symbol; its Go tree is in the writer's domain *)
+Definition ex_nested : value :=
+  VHash [80;116] [(KSym [98], VStr true [97;34;92;10;60;233;1]);
+                  (KSym [97], VArr [VFloat false 4609434218613702656; VNil; VInt (-7)]);
+                  (KStr [105;110], VHash s_hash [(KSym [122], VHash s_hash []);
+                                                  (KSym [121], VArr [VHash [81] [(KSym [113], VInt 300)]; VArr []])])].
+
+Example ex_msgpack_roundtrip_bytes :
+  data fmt0 ex_nested = true /\ no_reserved_keys ex_nested = true /\ mp_fits ex_nested = true /\
+  (match msgpack_bytes fmt0 pf0 ex_nested with Some b => unmsgpack_bytes b | None => Crash end) = Ok (norm ex_nested) /\
+  gtree_of fmt0 pf0 ex_nested = Some (gt_of ex_nested) /\ gt_ok (gt_of ex_nested) = true /\
+  norm ex_nested <> ex_nested.
+Proof. vm_compute. repeat split; try reflexivity. discriminate. Qed.
